@@ -727,7 +727,9 @@ fn big_gc_case(rng: &mut Rng, w: &mut dyn Write, kind: &str) {
             pool.push(format!("x{}_{}", round, v));
             pool.push(format!("nx{}_{}", round, v));
         }
-        for s in 0..(if zbdd(kind) { 30000 } else { 42000 }) {
+        // the second round allocates more nodes than the collection freed
+        let steps = if zbdd(kind) { 22000 } else { 30000 } * (if round == 0 { 2 } else { 3 }) / 2;
+        for s in 0..steps {
             let name = format!("g{}_{}", round, s);
             let lo = pool.len().saturating_sub(3000);
             writeln!(w, "op {} {} {} {}", name, rng.pick(&BIN_OPS), rng.pick(&pool[lo..]), rng.pick(&pool)).unwrap();
@@ -929,6 +931,39 @@ fn gen_c08(cfg: &GenCfg, rng: &mut Rng, w: &mut dyn Write, kind: &str) {
                 let i = rng.below(pool.len() as u64) as usize;
                 writeln!(w, "drop {}", pool.swap_remove(i)).unwrap();
                 writeln!(w, "gc").unwrap();
+            }
+        }
+    }
+    // sparse diagrams: most levels are empty, partial orders whose number of named variables
+    // coincides (or not) with the number of non-empty levels, empty levels that have to move
+    let cases = if cfg.thorough { 400 } else { 60 } * cfg.scale;
+    for c in 0..cases {
+        let n = rng.range(3, 7) as u32;
+        writeln!(w, "case c08-sparse-{}-n{}", c, n).unwrap();
+        writeln!(w, "mgr nodes=65536 cache=64 threads={} vars={}", rng.pick(&[1u32, 2]), n).unwrap();
+        // nodes on k levels only
+        let k = rng.range(1, 3.min(n as u64)) as usize;
+        let mut vs: Vec<u32> = (0..n).collect();
+        rng.shuffle(&mut vs);
+        let used = &vs[..k];
+        let mut pool = Vec::new();
+        for &v in used {
+            writeln!(w, "var x{} {}", v, v).unwrap();
+            pool.push(format!("x{v}"));
+        }
+        for j in 0..rng.range(0, 3) {
+            let name = format!("g{j}");
+            writeln!(w, "op {} {} {} {}", name, rng.pick(&BIN_OPS), rng.pick(&pool), rng.pick(&pool)).unwrap();
+            pool.push(name);
+        }
+        for _ in 0..rng.range(1, 4) {
+            // a partial order: often exactly as many named variables as non-empty levels
+            let len = if rng.chance(1, 2) { k } else { rng.range(0, n as u64) as usize };
+            let mut o: Vec<u32> = (0..n).collect();
+            rng.shuffle(&mut o);
+            writeln!(w, "order {}{}", order_str(&o[..len]), if rng.chance(1, 5) { " seq=1" } else { "" }).unwrap();
+            for h in &pool {
+                writeln!(w, "show {}", h).unwrap();
             }
         }
     }
